@@ -1,13 +1,139 @@
-import GIV.Model.CachePut
-/-! C11 — concurrent cache users never observe corrupt or foreign data (theorems under construction). -/
+import GIV.Lemmas.CachePutConc
+/-!
+# C11 — concurrent cache users never observe corrupt or foreign data
+
+Same model as C12 (`GIV.Model.CachePut`): any number of processes and goroutines, every transition
+of `step` is one system call of one task; here no faults (`l.fault = .none`) and well-behaved source
+readers (`GoodSrc`).  `FSInvP` strengthens clause (D) of the invariant to "every data file is a
+PREFIX of the content with its hash".
+
+Proved: the byte-level core (interleaved writers keep the file a prefix), the step of the moving
+writer, and non-interference (what any other well-behaved task does is monotone, and a writer's
+local facts survive monotone changes).  NOT mechanised: the assembly of these three over the task
+table of `World` (bookkeeping that descriptors of distinct tasks are distinct) — the full statements
+are the `…_statement` definitions at the end.
+-/
 namespace GIV.C11
 open GIV GIV.CachePut
 
-/-- the index entry is rewritten in place: no O_TRUNC, one write, truncate after. -/
+variable {Id Hsh : Type} [DecidableEq Id] [DecidableEq Hsh]
+variable {P : Params Id Hsh} {offered : Bytes → Prop}
+
+/-- the index entry is rewritten in place: no O_TRUNC, one write, truncate after (regenerated facts). -/
 theorem index_rewrite_facts :
     Gen.CachePut.indexOpenTrunc = false ∧ Gen.CachePut.indexOpenCreate = true ∧
     Gen.CachePut.indexSingleWrite = true ∧ Gen.CachePut.indexTruncAfterWrite = true ∧
     Gen.CachePut.indexCloseBeforeChtimes = true := by
   decide
+
+/-- **Two writers of one output interleave their writes**: a file that is a prefix of the content `c`,
+written at an offset that does not exceed its length with the bytes `c` has there, is again a prefix
+of `c`, and not shorter.  (Each writer's offset never exceeds the file length: `WStC`.) -/
+theorem interleaved_writes_stay_prefix {d c : Bytes} {off k : Nat} (hp : d <+: c) (ho : off ≤ d.length) :
+    writeAt d off ((c.drop off).take k) <+: c ∧ d.length ≤ (writeAt d off ((c.drop off).take k)).length :=
+  writeAt_prefix hp ho
+
+example : writeAt [1, 2] 1 (([1, 2, 3, 4].drop 1).take 2) = ([1, 2, 3] : Bytes) := by decide
+
+/-- **the reader-side size gate**: a data file that is a prefix of the content and has its size IS the content. -/
+theorem size_gate_complete {d c : Bytes} (hp : d <+: c) (hl : d.length = c.length) : d = c :=
+  prefix_of_length_eq hp hl
+
+example : ([1, 2] : Bytes) <+: [1, 2] ∧ ([1, 2] : Bytes).length = 2 := by decide
+
+/-- **A fault-free step of a writer** (any program point of `copyFile` / `putIndexEntry`, source reader
+delivering the same bytes twice) keeps clause (D⁺) and (I) for every file and re-establishes the writer's
+local facts (`LocalC`: its descriptor is positioned inside the file, the bytes still to copy are those
+of the content from there on; the error paths with `Truncate(0)` / `Remove` are unreachable). -/
+theorem concurrent_step_inv (hy : Hyps P offered) {now : Int} {id : Id} {s : Src} (hg : GoodSrc s) (hoff : offered s.data1)
+    {fs fs' : FS Id Hsh} {proc n : Nat} {r : Res} {pc : PC Hsh} {nx : Next Hsh}
+    (hinv : FSInvP P offered fs) (hL : LocalC P id s fs pc)
+    (hs : tstep P now fs proc (.put id s) pc .none n = some (fs', r, nx)) :
+    FSInvP P offered fs' ∧ (match nx with | .goto pc' => LocalC P id s fs' pc' | .done _ => True) := by
+  have h := put_cstep hy hg hoff hinv hL hs
+  refine ⟨h.1, ?_⟩
+  cases nx <;> exact h.2
+
+/-- **Non-interference, part 1**: the system calls of a fault-free writer never remove, truncate or
+shrink a file (`SafeSys`), and a safe system call is monotone for everybody else: names stay, no file
+shrinks, no other descriptor is touched. -/
+theorem concurrent_step_monotone (hy : Hyps P offered) {now : Int} {id : Id} {s : Src} (hoff : offered s.data1)
+    {fs fs' : FS Id Hsh} {proc n : Nat} {r : Res} {pc : PC Hsh} (hinv : FSInvP P offered fs)
+    (hL : LocalC P id s fs pc)
+    (he : execOk fs proc (sysOf P now n (.put id s) pc) = some (fs', r)) :
+    Mono fs fs' (sysFd (sysOf P now n (.put id s) pc)) :=
+  exec_mono hinv.1 he (put_safe hy hoff hL)
+
+/-- **Non-interference, part 2**: the local facts of a writer survive every monotone change made by
+another task through another descriptor. -/
+theorem concurrent_frame (hy : Hyps P offered) {id : Id} {s : Src} (hoff : offered s.data1)
+    {fs fs' : FS Id Hsh} {f : Option Nat} (hm : Mono fs fs' f)
+    (hinv : FSInvP P offered fs) (hinv' : FSInvP P offered fs') {pc : PC Hsh}
+    (hfd : ∀ g, fdOf pc = some g → some g ≠ f ∧ g < fs.nextFd) (hL : LocalC P id s fs pc) :
+    LocalC P id s fs' pc :=
+  localC_mono hy hoff hm hinv hinv' hfd hL
+
+/-! ### non-vacuity: the same small instance as in C12 -/
+
+def toyOffered (c : Bytes) : Prop := c = [7] ∨ c = [8, 9, 10]
+def toyEnc (_ : Nat) (out : Bytes) (size : Nat) (_ : Int) : Bytes := [out.headD 0, size.toUInt8] ++ List.replicate 173 0
+def toyParse (_ : Nat) (bs : Bytes) : Option (Entry Bytes) :=
+  if bs.length ≠ 175 then none
+  else if bs.headD 0 = 7 then some ⟨[7], (bs.getD 1 0).toNat⟩
+  else if bs.headD 0 = 8 then some ⟨[8, 9, 10], (bs.getD 1 0).toNat⟩
+  else none
+def toyP : Params Nat Bytes := ⟨fun b => b, toyEnc, toyParse⟩
+def emptyFS : FS Nat Bytes :=
+  { names := fun _ => none, inodes := fun _ => none, nextIno := 0, fds := fun _ => none, nextFd := 0 }
+def goodSrc : Src := ⟨true, [8, 9, 10], true, [8, 9, 10]⟩
+
+theorem emptyFS_invP : FSInvP toyP toyOffered emptyFS :=
+  ⟨⟨fun _ _ h => by simp [emptyFS] at h, fun _ _ h => by simp [emptyFS] at h⟩, fun _ _ _ _ h => by simp [emptyFS] at h⟩
+
+example : GoodSrc goodSrc ∧ LocalC toyP 1 goodSrc emptyFS .pStat ∧
+    ∃ fs' r nx, tstep toyP 5 emptyFS 0 (.put 1 goodSrc) .pStat .none 0 = some (fs', r, nx) :=
+  ⟨⟨rfl, rfl, rfl⟩, trivial, _, _, _, rfl⟩
+
+example : Mono emptyFS emptyFS none ∧ LocalC toyP 1 goodSrc emptyFS (.pOpen false) :=
+  ⟨⟨fun _ _ h => h, fun _ _ h => by simp [emptyFS] at h, fun _ _ _ => rfl, Nat.le_refl _⟩, rfl⟩
+
+/-! ### the full statements (not yet assembled over the task table) -/
+
+/-- every task is at the start of a well-behaved operation. -/
+def GoodOp (offered : Bytes → Prop) : Op Id → Prop
+  | .put _ s => GoodSrc s ∧ offered s.data1
+  | _ => True
+
+def Initial (offered : Bytes → Prop) (w : World Id Hsh) : Prop :=
+  ∀ tid tk, w.tasks tid = some tk →
+    (∀ op pc, tk.cur = some (op, pc) → GoodOp offered op ∧ startOp (Hsh := Hsh) op = .goto pc) ∧
+    (∀ op, op ∈ tk.todo → GoodOp offered op)
+
+/-- `concurrent_inv`: in every world reachable by fault-free steps of any number of processes and
+goroutines under any schedule, every data file is a prefix of the content with its hash and every
+index file is empty or a whole entry. -/
+def concurrent_inv_statement : Prop :=
+  ∀ (P : Params Id Hsh) (offered : Bytes → Prop), Hyps P offered →
+  ∀ (w0 w : World Id Hsh) (ls : List Label), FSInvP P offered w0.fs → Initial offered w0 →
+    (∀ l, l ∈ ls → l.fault = .none) → run P w0 ls = some w → FSInvP P offered w.fs
+
+/-- `lookup_returns_some_put`: a lookup that succeeds in such a world reports an entry whose index
+write was completed by a Put of that id (`Ev.indexed`), with the bytes of that Put. -/
+def lookup_returns_some_put_statement : Prop :=
+  ∀ (P : Params Id Hsh) (offered : Bytes → Prop), Hyps P offered →
+  ∀ (w0 w : World Id Hsh) (ls : List Label), FSInvP P offered w0.fs → Initial offered w0 → w0.hist = [] →
+    (∀ p, w0.fs.names p = none) →
+    (∀ l, l ∈ ls → l.fault = .none) → run P w0 ls = some w →
+    ∀ tid op d e, Ev.ret tid op (.bytes d e) ∈ w.hist →
+      ∃ t' , Ev.indexed t' op.id d ∈ w.hist ∧ e = ⟨P.H d, d.length⟩
+
+/-- `quiescent_all_readable`: when every task has finished, every id whose Put returned is readable. -/
+def quiescent_all_readable_statement : Prop :=
+  ∀ (P : Params Id Hsh) (offered : Bytes → Prop), Hyps P offered →
+  ∀ (w0 w : World Id Hsh) (ls : List Label), FSInvP P offered w0.fs → Initial offered w0 →
+    (∀ l, l ∈ ls → l.fault = .none) → run P w0 ls = some w → (∀ tid, w.finished tid = true) →
+    ∀ tid id s out size, Ev.ret tid (.put id s) (.putOk out size) ∈ w.hist →
+      ∃ c, offered c ∧ (∃ i nd, w.fs.names (.index id) = some i ∧ w.fs.inodes i = some nd ∧
+        P.parse id nd.data = some ⟨P.H c, c.length⟩) ∧ w.fs.content (.data (P.H c)) = some c
 
 end GIV.C11
